@@ -28,6 +28,7 @@ func main() {
 			for _, a := range os.Args[2:] {
 				if strings.Contains(name, a) {
 					fmt.Println(name, eng.EffectsString(fn))
+					fmt.Println("   events:", eng.EventEffectsString(fn))
 				}
 			}
 		}
